@@ -327,6 +327,20 @@ def r_section_agree(ctx: RuleCtx, col: Collector):
                         if isinstance(n, ast.If) and isinstance(n.test, ast.Name) and n.test.id == pad_flag and any(
                                 isinstance(x, ast.Assign) and norm(x.targets[0]) == nm and norm(x.value) == "3" for x in n.body):
                             pad_decl = True
+    if pad_alloc and not pad_decl:
+        # the branch that allocates the padded array also sets the declared component count to 3
+        for n in ast.walk(f.node):
+            if isinstance(n, ast.If) and any(re.search(rf"np\.zeros\(3\*{selfn}\.nnodes", norm(b_)) for b_ in n.body):
+                set3 = {norm(x.targets[0]) for b_ in n.body for x in ast.walk(b_) if isinstance(x, ast.Assign) and norm(x.value) == "3"}
+                for c_, t_ in ws:
+                    if "NumberOfComponents" not in t_ or not isinstance(c_.args[0], ast.Call) or not isinstance(c_.args[0].func, ast.Attribute):
+                        continue
+                    js = c_.args[0].func.value
+                    if isinstance(js, ast.JoinedStr):
+                        for k_, v_ in enumerate(js.values):
+                            if isinstance(v_, ast.FormattedValue) and k_ > 0 and isinstance(js.values[k_ - 1], ast.Constant) and \
+                                    str(js.values[k_ - 1].value).endswith('NumberOfComponents="') and norm(v_.value) in set3:
+                                pad_decl = True
     if pad_alloc and pad_decl:
         col.ok(where_of(f), f.rel, line_of(f.node), "2-D vectors padded to 3 components", "3*nnodes values, 3 components declared")
     else:
